@@ -533,6 +533,9 @@ class ConditionEvaluator(ast.NodeVisitor):
             for operand in node.values:
                 result = self.visit(operand)
                 active.append(result.condition)
+                if result.left_varmap is None and result.right_varmap is None:
+                    # The operand is invalid (already reported): so is the condition.
+                    return ConditionReturn(NullCondition())
                 if is_and:
                     if result.left_varmap is None:
                         # Condition returns False
